@@ -703,3 +703,30 @@ Example ex_bytes :
   /\ deserialize_struct ex_defs ex_enums 1 ([9; 3; 104; 195; 169; 1; 32] ++ ex_id ++ [1; 2]) = Ok (VStruct 1 ex_fields)
   /\ deserialize_struct ex_defs ex_enums 1 ([9; 3; 104; 195; 169; 1; 32] ++ ex_id ++ [1; 4]) = Err DBadInput.
 Proof. repeat split; vm_compute; reflexivity. Qed.
+
+(** * The encoding is injective and prefix-free on well-typed values:
+    two struct values of the same type with the same serialization are the
+    same value, and no serialization is a proper prefix of another — a
+    receiver can never mistake one command's fields for another's. *)
+Definition ser_injective_prefix_free_stmt : Prop :=
+  forall (defs : struct_defs) (enums : enum_defs) (rk : ident -> nat) (name : ident)
+         (f1 f2 : list (ident * value)) (e1 e2 : list N),
+  acyclic defs rk ->
+  has_type defs enums (VStruct name f1) (TStruct name) ->
+  has_type defs enums (VStruct name f2) (TStruct name) ->
+  serialize_struct defs name f1 = Ok e1 -> serialize_struct defs name f2 = Ok e2 ->
+  (e1 = e2 -> f1 = f2)
+  /\ (forall rest, e2 = e1 ++ rest -> rest = [] /\ f1 = f2).
+Lemma ser_injective_prefix_free_proof : ser_injective_prefix_free_stmt.
+Proof.
+  intros defs enums rk name f1 f2 e1 e2 Hac H1 H2 S1 S2.
+  destruct (deser_ser_proof defs enums rk name f1 Hac H1) as (x1 & Sx1 & _ & D1 & _ & T1).
+  destruct (deser_ser_proof defs enums rk name f2 Hac H2) as (x2 & Sx2 & _ & D2 & _ & _).
+  rewrite S1 in Sx1. rewrite S2 in Sx2. inversion Sx1; subst x1. inversion Sx2; subst x2.
+  assert (Hinj : e1 = e2 -> f1 = f2).
+  { intros ->. rewrite D1 in D2. inversion D2. reflexivity. }
+  split; [exact Hinj|].
+  intros rest ->. destruct rest as [|x extra].
+  - split; [reflexivity|]. apply Hinj. now rewrite app_nil_r.
+  - exfalso. rewrite T1 in D2. discriminate.
+Qed.
